@@ -840,7 +840,8 @@ def emit_fn(contract, verified, info):
     rec['rewrites'] = applied
     rec['degraded'] = [a['dropped_annotations'] for a in applied if a.get('rule') == 'DEGRADED']
     rec['loops'] = nloops
-    rec['clauses'] = len(re.findall(r'//\s*\[[^\]]+\]', head)) + sum(t.count('//') * 0 for _, _, t in contract.directives)
+    rec['labels'] = re.findall(r'//\s*\[([^\]]+)\]', head)
+    rec['clauses'] = len(rec['labels'])
     info['functions'].append(rec)
     if info.get('variant') == 'vacuity':
         head = vacuous_head(head)
@@ -878,6 +879,8 @@ def expand(unit, db=None, outdir=None, variant=None):
             s = raw.strip()
             if s.startswith('//@include '):
                 inc = os.path.join(VERIF, s.split(None, 1)[1])
+                if variant == 'alloc' and inc.endswith('shims/alloc_free.rs'):
+                    inc = inc.replace('alloc_free.rs', 'alloc_budget.rs')
                 info['includes'].append(os.path.relpath(inc, VERIF))
                 do_file(inc, depth + 1)
             elif s.startswith('//@struct ') or s.startswith('//@enum '):
@@ -928,7 +931,7 @@ def expand(unit, db=None, outdir=None, variant=None):
                     raise
         lines[pos] = '\n'.join(chunk)
     text = '\n'.join(lines) + '\n'
-    out = os.path.join(outdir, unit + ('__vac' if variant == 'vacuity' else '') + '.rs')
+    out = os.path.join(outdir, unit + ('__vac' if variant == 'vacuity' else '__alloc' if variant == 'alloc' else '') + '.rs')
     with open(out, 'w') as f:
         f.write(text)
     info['path'] = out
